@@ -279,11 +279,37 @@ func c18Custom(t *testing.T, sc *world.Scenario, out *Outcome) {
 		delete(pn.Servers, L.Addr)
 		// the node's next write of the election record (its first renewal) stays in the engine for a while
 		w.KV.Plan = append(w.KV.Plan, &simkv.Fault{Op: "commit", Class: "lock", Node: len(w.Nodes) + 1, Nth: 1, Effect: "delay:3000"})
+		maxStored := model.FromGT(w.KV.GT).MaxRev()
+		w.YieldOnSetRevision = true // the election callback can be overtaken between its statements
 		L2 := w.AddServerAt(pn, proxyOn, L.Addr)
 		curLeader = L2
+		// the callback has begun and has not yet given the node its revision
+		inWindow := func() bool {
+			return L2.M.Counter("leader.election.success") > 0 && L2.B.GetCurrentRevision() < maxStored
+		}
 		s.Go("restart", -1, func() {
-			until := s.SimTime() + 2500*time.Millisecond
+			until := s.SimTime() + 6*time.Second
 			for s.SimTime() < until {
+				if inWindow() {
+					out.probe("request-while-the-election-callback-runs")
+					rk := readKinds[s.Rng().Intn(len(readKinds))]
+					r := doRead(L2, "R", rk)
+					if r.err == "" && r.kind != "partitions" && r.hdr < maxStored {
+						out.violate(P, "served-before-revision-initialised", "served-before-revision-initialised kind="+rk,
+							"the node that was just elected served %s at revision %d while its election callback had not yet given it its revision (the store holds revision %d)", rk, r.hdr, maxStored)
+					}
+					n0 := len(w.KV.GT)
+					kind := writeKinds[s.Rng().Intn(len(writeKinds))]
+					doWrite(L2, kind)
+					for _, e := range w.KV.GT[n0:] {
+						if e.Node == L2.ID && e.Class == "data" && e.Applied && len(e.Muts) > 0 && e.Muts[0].Rev != 0 && e.Muts[0].Rev <= maxStored {
+							out.violate(P, "served-before-revision-initialised", "served-before-revision-initialised kind="+kind,
+								"the node that was just elected applied a write (%s) with revision %d while its election callback had not yet given it its revision (the store holds revision %d)", kind, e.Muts[0].Rev, maxStored)
+						}
+					}
+					s.Yield("matrix.step")
+					continue
+				}
 				started := L2.M.Counter("leader.election.success") > 0
 				before := 0
 				for _, e := range w.KV.GT {
@@ -313,7 +339,7 @@ func c18Custom(t *testing.T, sc *world.Scenario, out *Outcome) {
 					}
 				}
 				wake := s.SimTime() + 200*time.Millisecond
-				s.YieldUntil("matrix.sleep", func() bool { return s.SimTime() >= wake })
+				s.YieldUntil("matrix.sleep", func() bool { return s.SimTime() >= wake || inWindow() })
 			}
 			finished = true
 		})
